@@ -255,6 +255,11 @@ func (tr *Transaction) Commit() error {
 }
 
 func (tr *Transaction) discard() {
+	// Don't hand out the sequence numbers used by this transaction again,
+	// iterators created from it may outlive it.
+	if tr.seq > tr.db.getSeq() {
+		tr.db.setSeq(tr.seq)
+	}
 	// Discard transaction.
 	for _, t := range tr.tables {
 		tr.db.logf("transaction@discard @%d", t.fd.Num)
